@@ -108,13 +108,13 @@ func (o *Out) DeclareTypes(entries []*TypeEntry) {
 type Form string
 
 const (
-	FormVal    Form = "v"    // T
-	FormPtr    Form = "p"    // *T
-	FormPtrPtr Form = "pp"   // **T
-	FormNilP   Form = "pn"   // (*T)(nil)
-	FormNilPP  Form = "ppn"  // **T pointing to a nil *T
-	FormNilPP2 Form = "ppnn" // (**T)(nil)
-	FormNil    Form = "nil"  // untyped nil
+	FormVal     Form = "v"    // T
+	FormPtr     Form = "p"    // *T
+	FormPtrPtr  Form = "pp"   // **T
+	FormNilP    Form = "pn"   // (*T)(nil)
+	FormNilPP   Form = "ppn"  // **T pointing to a nil *T
+	FormNilPP2  Form = "ppnn" // (**T)(nil)
+	FormNil     Form = "nil"  // untyped nil
 	FormForeign Form = "foreign"
 )
 
